@@ -494,7 +494,7 @@ def seg_count(tree: BaseSegment, k: INT, n: INT) -> INT:
     return 0 if n <= 0 else seg_count(tree, k, n - 1) + (1 if seg_kind(comments_of(tree)[n - 1]) == k else 0)
 
 
-@spec
+@spec(opaque=True)
 def seg_directive(d, c, m):
     """d is the directive that comment segment c (of kind 1) stands for, on c's source line"""
     return parsed_as(d, comment_content(trim(seg_text(c))), pm_line(c.pos_marker), pm_pos(c.pos_marker), m)
@@ -506,8 +506,10 @@ def tree_mask(ds, es, tree, m, n):
     noqa comment, in file order, each on the line of its comment; one error per malformed one"""
     cs = comments_of(tree)
     c1 = len(ds) == seg_count(tree, 1, n) and len(es) == seg_count(tree, 2, n)
-    c2 = all(implies(seg_kind(cs[i]) == 1, seg_directive(ds[seg_count(tree, 1, i)], cs[i], m)) for i in range(0, n))
-    c3 = all(implies(seg_kind(cs[i]) == 2, seg_directive(es[seg_count(tree, 2, i)], cs[i], m)) for i in range(0, n))
+    c2 = all(implies(seg_kind(cs[i]) == 1, 0 <= seg_count(tree, 1, i) < len(ds) and seg_directive(ds[seg_count(tree, 1, i)], cs[i], m))
+             for i in range(0, n))
+    c3 = all(implies(seg_kind(cs[i]) == 2, 0 <= seg_count(tree, 2, i) < len(es) and seg_directive(es[seg_count(tree, 2, i)], cs[i], m))
+             for i in range(0, n))
     return c1 and c2 and c3
 
 
